@@ -37,6 +37,9 @@ type replayBuilder func(vals map[string]string, sm *oblSummary) (pkgDir, testNam
 
 var replayBuilders = map[string]replayBuilder{}
 
+// witnessBuilders: keyed by obligation name; used when the solver refutes nothing but cannot prove either.
+var witnessBuilders = map[string]replayBuilder{}
+
 var getValueRe = regexp.MustCompile(`\(\s*\|?([^\s()|]+)\|?\s+((?:\([^()]*(?:\([^()]*\)[^()]*)*\))|[^\s()]+)\s*\)`)
 
 // parseValues reads "(get-value ...)" style output "((name value) ...)" into a map.
@@ -62,6 +65,22 @@ func buildReplay(eng *Engine, repo, pid string, sm *oblSummary, path string) str
 		smt := strings.TrimSuffix(path, ".replay") + ".smt2"
 		if os.WriteFile(smt, []byte(sm.Script), 0o644) == nil {
 			rf.SMT = smt
+		}
+	}
+	if sm.Status != "refuted" {
+		// no solver model: a witness attached to this obligation (written with the contract) is tried instead
+		if b, ok := witnessBuilders[sm.Name]; ok {
+			if dir, name, src, ok := b(nil, sm); ok {
+				rf.PkgDir, rf.TestName, rf.TestSrc = dir, name, src
+				failed, out := runOverlayTest(repo, dir, name, src)
+				rf.Output = out
+				if failed {
+					rf.Result = "confirmed"
+					rf.Detail += " (no solver model; the witness input recorded for this obligation fails on the real code)"
+				} else {
+					rf.Result = "not-confirmed"
+				}
+			}
 		}
 	}
 	if sm.Status == "refuted" {
